@@ -192,6 +192,33 @@ theorem psum_parity (y : Rat) (P : Rat → Bool) (es : List (Pt × Pt)) :
         simp only [hp]
         exact ⟨k, by simp⟩
 
+/-- the signed count is bounded by the plain count -/
+theorem psum_abs_le (y : Rat) (P : Rat → Bool) (es : List (Pt × Pt)) :
+    - (((es.flatMap (crossXs y)).filter P).length : Int) ≤ psum y P es ∧
+      psum y P es ≤ (((es.flatMap (crossXs y)).filter P).length : Int) := by
+  induction es with
+  | nil => simp [psum]
+  | cons e es ih =>
+    rw [psum_cons, List.flatMap_cons, List.filter_append, List.length_append]
+    by_cases h0 : sgnE y e = 0
+    · have : ((crossXs y e).filter P).length = 0 := by simp [crossXs, h0]
+      rw [this, h0]
+      simp only [ite_self]
+      omega
+    · by_cases hp : P (xAt y e) = true
+      · have : ((crossXs y e).filter P).length = 1 := by simp [crossXs, h0, hp]
+        rw [this]
+        simp only [hp, if_true]
+        rcases sgnE_cases y e with h | h | h
+        · rw [h]; omega
+        · rw [h]; omega
+        · exact absurd h h0
+      · have : ((crossXs y e).filter P).length = 0 := by simp [crossXs, h0, hp]
+        rw [this]
+        simp only [hp]
+        simp only [Bool.false_eq_true, if_false]
+        omega
+
 /-- no selected crossing: the signed count vanishes -/
 theorem psum_zero (y : Rat) (P : Rat → Bool) (es : List (Pt × Pt))
     (h : ∀ t ∈ es.flatMap (crossXs y), P t = false) : psum y P es = 0 := by
@@ -246,6 +273,59 @@ theorem winding_ne_zero_of_odd (x y : Rat) (r : List Pt) (hc : r.head? = r.getLa
   obtain ⟨k, hk⟩ := psum_parity y (fun t => decide (t ≤ x)) (segs r)
   rw [hk]
   omega
+
+/-- exactly one crossing at or left of the point (between the first and the second crossing):
+the winding number is `±1` -/
+theorem winding_pm_one_of_one (x y : Rat) (r : List Pt) (hc : r.head? = r.getLast?)
+    (hy : ∀ v ∈ r, v.y ≠ y)
+    (hone : (((segs r).flatMap (crossXs y)).filter (fun t => decide (t ≤ x))).length = 1) :
+    windingE (EPt.ofPt ⟨x, y⟩) r = 1 ∨ windingE (EPt.ofPt ⟨x, y⟩) r = -1 := by
+  rw [winding_level x y r hc hy]
+  obtain ⟨k, hk⟩ := psum_parity y (fun t => decide (t ≤ x)) (segs r)
+  obtain ⟨h1, h2⟩ := psum_abs_le y (fun t => decide (t ≤ x)) (segs r)
+  rw [hone] at hk h1 h2
+  omega
+
+/-- moving the point to the right across exactly the crossings in `(x, x']` changes the winding
+number by their signed count; across exactly one crossing by `±1` -/
+theorem winding_step (x x' y : Rat) (r : List Pt) (hc : r.head? = r.getLast?)
+    (hy : ∀ v ∈ r, v.y ≠ y) (hxx : x ≤ x')
+    (hone : (((segs r).flatMap (crossXs y)).filter (fun t => decide (x < t) && decide (t ≤ x'))).length = 1) :
+    windingE (EPt.ofPt ⟨x', y⟩) r = windingE (EPt.ofPt ⟨x, y⟩) r + 1 ∨
+    windingE (EPt.ofPt ⟨x', y⟩) r = windingE (EPt.ofPt ⟨x, y⟩) r - 1 := by
+  rw [winding_level x y r hc hy, winding_level x' y r hc hy]
+  have hsplit : psum y (fun t => decide (t ≤ x')) (segs r) =
+      psum y (fun t => decide (t ≤ x)) (segs r) +
+      psum y (fun t => decide (x < t) && decide (t ≤ x')) (segs r) := by
+    unfold psum
+    induction segs r with
+    | nil => rfl
+    | cons e es ih =>
+      simp only [List.map_cons, List.sum_cons, ih]
+      by_cases h1 : xAt y e ≤ x
+      · have h2 : xAt y e ≤ x' := le_trans h1 hxx
+        have h3 : ¬ x < xAt y e := not_lt.2 h1
+        simp [h1, h2, h3]; omega
+      · have h3 : x < xAt y e := not_le.1 h1
+        by_cases h2 : xAt y e ≤ x'
+        · simp [h1, h2, h3]; omega
+        · simp [h1, h2, h3]
+  obtain ⟨k, hk⟩ := psum_parity y (fun t => decide (x < t) && decide (t ≤ x')) (segs r)
+  obtain ⟨h1, h2⟩ := psum_abs_le y (fun t => decide (x < t) && decide (t ≤ x')) (segs r)
+  rw [hone] at hk h1 h2
+  omega
+
+/-- a non-zero winding number needs a crossing at or left of the point -/
+theorem exists_crossing_le_of_winding (x y : Rat) (r : List Pt) (hc : r.head? = r.getLast?)
+    (hy : ∀ v ∈ r, v.y ≠ y) (hw : windingE (EPt.ofPt ⟨x, y⟩) r ≠ 0) :
+    ∃ t ∈ (segs r).flatMap (crossXs y), t ≤ x := by
+  by_contra hno
+  apply hw
+  rw [winding_level x y r hc hy, psum_zero]
+  · rfl
+  · intro t ht
+    have : ¬ t ≤ x := fun h => hno ⟨t, ht, h⟩
+    simpa using this
 
 /-- no crossing at or left of the point: winding number 0 -/
 theorem winding_zero_of_none (x y : Rat) (r : List Pt) (hc : r.head? = r.getLast?)
